@@ -99,8 +99,9 @@ def _exec_call(L, c, fresh, f, m, g, dv, P):
             big = g.integers(1 << (mag - 1), 1 << mag, 2 * m).astype(np.float64) * g.choice([-1.0, 1.0], 2 * m)
             v = np.where(g.integers(0, 2, 2 * m) == 1, big, v)
         # exact ties at both ends of the vector (where a kernel that treats a few head / tail elements apart would round them its own way)
-        v[0:3] = [2.5, -4.5, 7.5]
-        v[-3:] = [-6.5, 1.5, 8.5]
+        if len(v) >= 6:
+            v[0:3] = [2.5, -4.5, 7.5]
+            v[-3:] = [-6.5, 1.5, 8.5]
         x.f64[:] = v * dv
         if fresh:
             t = L.fn("new_reim_to_znx64_precomp", "p wdw")(m, dv, bnd)
